@@ -16,17 +16,17 @@ let ledger_of (tbl : (int * int, BinNums.coq_Z) Hashtbl.t) : FLedger.ledger =
 (* ------------------------------------------------------------------------------------------ *)
 (* english auctions                                                                            *)
 type eobs = { found : bool; sell : string; buy : string; bidder : int; nbids : int; bid_end : string;
-              end_ : string; status : string; specials : string array; (* MOD COLL EXT TM x (bid, lot) *)
+              end_ : string; status : string; specials : string array; (* MOD COLL EXT TM AUC1 x (bid, lot) *)
               bals : (string * string) array }
 
 let parse_eobs nb toks =
   match toks with
   | f :: sell :: buy :: bidder :: nbids :: bid_end :: end_ :: status :: rest ->
     let arr = Array.of_list rest in
-    if Array.length arr <> 8 + 2 * nb then failwith "obs: wrong number of balances";
+    if Array.length arr <> 10 + 2 * nb then failwith "obs: wrong number of balances";
     { found = bool_of_tok f; sell; buy; bidder = int_of_string bidder; nbids = int_of_string nbids; bid_end; end_; status;
-      specials = Array.sub arr 0 8;
-      bals = Array.init nb (fun i -> (arr.(8 + 2 * i), arr.(9 + 2 * i))) }
+      specials = Array.sub arr 0 10;
+      bals = Array.init nb (fun i -> (arr.(10 + 2 * i), arr.(11 + 2 * i))) }
   | _ -> failwith "bad obs"
 
 let variant_of = function
@@ -43,7 +43,10 @@ type ecase = {
   mutable estep : int; mutable refunds : int; sigb : Buffer.t;
   fac : BinNums.coq_Z; edur : BinNums.coq_Z; ebdur : BinNums.coq_Z; sell0 : BinNums.coq_Z; buy0 : BinNums.coq_Z; now0 : BinNums.coq_Z }
 
-let special_ids = [| -1; -2; -3; -4 |]
+(* MOD, COLL, EXT, TM, AUC1 = the generation-1 auction module account: the lot source of the
+   generation-2 surplus close (the real start put the lot there).  For V1S / V1D that account IS
+   the auction's own module account MOD: it is observed twice and diffed once (as MOD) *)
+let special_ids = [| -1; -2; -3; -4; -5 |]
 
 let eledger (c : ecase) (o : eobs) : FLedger.ledger =
   let t = Hashtbl.create 32 in
@@ -113,8 +116,10 @@ let eng_check (c : ecase) (o : eobs) =
   end;
   Array.iteri (fun i acct ->
       (* the tokenmint account is compared too: bids are moved there and burnt *)
-      mm (Printf.sprintf "bal[%d,bid]" acct) (zs (ml (zi acct) (zi c.bd))) o.specials.(2 * i);
-      mm (Printf.sprintf "bal[%d,lot]" acct) (zs (ml (zi acct) (zi c.ld))) o.specials.(2 * i + 1)) special_ids;
+      if not (acct = -5 && English.is_v1 c.v) then begin
+        mm (Printf.sprintf "bal[%d,bid]" acct) (zs (ml (zi acct) (zi c.bd))) o.specials.(2 * i);
+        mm (Printf.sprintf "bal[%d,lot]" acct) (zs (ml (zi acct) (zi c.ld))) o.specials.(2 * i + 1)
+      end) special_ids;
   Array.iteri (fun i (b, l) ->
       mm (Printf.sprintf "bal[%d,bid]" i) (zs (ml (zi i) (zi c.bd))) b;
       mm (Printf.sprintf "bal[%d,lot]" i) (zs (ml (zi i) (zi c.ld))) l) o.bals;
@@ -124,6 +129,10 @@ let eng_check (c : ecase) (o : eobs) =
   let pf pred detail = predfail ~case ~step ~pred ~kf:"none" ~detail in
   if not (English.holds_C11_custody ia (z_of_string o0.specials.(0)) (z_of_string o.specials.(0))) then
     pf "holds_C11_custody" (Printf.sprintf "module_bid_denom=%s_at_start=%s_held=%s" o.specials.(0) o0.specials.(0) (zs (English.held ia)));
+  (* the lot source (generation-2 surplus): untouched while open, out of exactly the lot after the
+     close; the collector's lot-denom balance never moves.  specials: 3 = COLL lot, 9 = AUC1 lot *)
+  if not (English.holds_C11_source ia (z_of_string o0.specials.(9)) (z_of_string o0.specials.(3)) (z_of_string o.specials.(9)) (z_of_string o.specials.(3))) then
+    pf "holds_C11_source" (Printf.sprintf "auction_v1_module_lot0=%s_now=%s_collector_lot0=%s_now=%s_lot=%s" o0.specials.(9) o.specials.(9) o0.specials.(3) o.specials.(3) (zs ia.English.sell));
   (match c.pending, pre_ia, pre_obs with
    | Some ("op" :: "bid" :: who :: _ :: amt :: _ :: _ :: _ :: "ok" :: []), Some pa, Some po ->
      if not (English.holds_C11_improves pa (z_of_string amt)) then
